@@ -396,17 +396,20 @@ def run_model(case, real: Real, driver, fix=(1, 1)):
             if x[0] in ('deliver', 'fail') and x[2] == 'GET' and x[3].rstrip('/') == f'/ports/{rid}/value' \
                     and j not in consumed:
                 consumed.add(j)
-                drain_model()          # the handler waits for the answer: the hub keeps ticking meanwhile
+                # the handler is suspended until the answer arrives: whatever reaches the master meanwhile (answers to
+                # other requests, a consumer's write) is processed first, and the hub keeps ticking
+                for k in range(pos + 1, j):
+                    if k not in consumed:
+                        consumed.add(k)
+                        handle_entry(k, real.trace[k])
+                drain_model()
                 if x[0] == 'deliver' and x[5] == 200:
                     ask(f'value-resp {it.port(rid)} {it.pval(x[6])}', nodrain=True)
                 return
 
     rid_of = {}
-    for pos, e in enumerate(real.trace):
-        if fail is not None:
-            break
-        if pos in consumed:
-            continue
+    def handle_entry(pos, e):
+        nonlocal started, window, in_op, real_series, fail, model_online
         tag = e[0]
         if tag == 'deliver' or tag == 'fail':
             _, t, method, path, body, code, resp = e
@@ -427,7 +430,7 @@ def run_model(case, real: Real, driver, fix=(1, 1)):
                         f'{it.attrs(dev_clean(init.get("dev", {})))} {it.attrs(init.get("wh", {}))} '
                         f'{it.attrs(init.get("rv", {}))} {it.portlist(resp, with_value=(mode == "listen"))}')
                     started = True
-                continue
+                return
             # ---- user edits travelling to the slave while the master is online
             if in_op is not None and method in ('PATCH', 'PUT') and _is_op_request(in_op, path):
                 st = in_op
@@ -439,11 +442,11 @@ def run_model(case, real: Real, driver, fix=(1, 1)):
                     tags.add('online-attr-edit')
                 elif st[0] == 'mdev':
                     ask(f'edit-dev {it.name(st[1])} {it.val(st[2])}')
-                continue
+                return
             if method == 'GET' and path.startswith('/ports/') and path.endswith('/value'):
                 if ok:
                     ask(f'value-resp {it.port(path.split("/")[2])} {it.pval(resp)}')
-                continue
+                return
             if mode == 'listen':
                 if window is not None:
                     window['reqs'].append((method, path, body, code))
@@ -456,7 +459,7 @@ def run_model(case, real: Real, driver, fix=(1, 1)):
                             finish_window(None, None, 'online')
                     elif path == '/ports':
                         finish_window(window['dev'], resp if ok else None, 'online')
-                    continue
+                    return
                 if method == 'GET' and path == '/listen' and ok:
                     evs = [it.event(x) for x in resp]
                     for x in resp:
@@ -485,7 +488,7 @@ def run_model(case, real: Real, driver, fix=(1, 1)):
                 if method == 'GET' and path == '/device':
                     if ok:
                         window = {'t': t, 'reqs': [], 'pushes': [], 'dev': resp}
-                    continue
+                    return
                 if window is not None:
                     window['reqs'].append((method, path, body, code))
                     if method != 'GET':
@@ -528,7 +531,7 @@ def run_model(case, real: Real, driver, fix=(1, 1)):
                 fail = Failure('correspondence', f'check #{e[1]}: master GET /ports differs from the model for port(s) '
                                f'{bad}: real {[rports.get(b) for b in bad]} model {[mcmp.get(b) for b in bad]}',
                                real=rports, model=mcmp, where='mirror')
-                break
+                return
             # pending user values (persisted `value` of the port record while 'value' is pending)
             for rid, pv in obs['persisted_value'].items():
                 k = it.port(rid)
@@ -568,7 +571,7 @@ def run_model(case, real: Real, driver, fix=(1, 1)):
         elif isinstance(tag, float):
             _, typ, params = e
             if not started:
-                continue
+                return
             if typ == 'value-change' and params['id'].startswith(NAME + '.'):
                 real_series.setdefault(it.port(params['id'][len(NAME) + 1:]), []).append(it.pval(params['value']))
             elif typ == 'slave-device-update' and params.get('online') is False and model_online:
@@ -577,6 +580,13 @@ def run_model(case, real: Real, driver, fix=(1, 1)):
                 tags.add('went-offline')
             elif typ == 'slave-device-update' and params.get('online') is True:
                 model_online = True
+
+    for pos, e in enumerate(real.trace):
+        if fail is not None:
+            break
+        if pos in consumed:
+            continue
+        handle_entry(pos, e)
     return fail, tags
 
 
